@@ -454,7 +454,11 @@ example : C07Arms.exprArms.length = 20 := by decide
       the binary operators `+` (numbers, String + String, List + List) `-` `*`
       `%` `== != < <= > >= && ||`, `if` with and without `else`, `while`, `for`,
       blocks, `let` with and without annotation, expression statements,
-      assignment to local variables and their fields, calls of functions
+      assignment and compound assignment (`+= -= *= %=` …, every operator but
+      `/=`) to local variables and their fields, method calls `e.m(args)` on
+      `List[T]` and `String` (one path `v.a.m(args)` or a method of any other
+      expression; the signature instantiated with a fresh element variable, the
+      receiver unified with it), calls of functions
       (argument count and types), constructors of user enums, `Option.Some(e)`,
       `Option.None`, typed record literals (field names and types), list
       literals (also `[]`), `?`, `match` over `Option` and user enums with
@@ -465,7 +469,7 @@ example : C07Arms.exprArms.length = 20 := by decide
   SOLUTION in ground types (`∃ σ, GVal σ ∧ Sat σ st.store`; `TcInfer.satB`
   decides a proposed solution).
   MISSING, precisely:
-    (a) outside the fragment: method calls, compound assignment, arm-less `match`, `/`
+    (a) outside the fragment: arm-less `match`, `/` and `/=`
         (its `IpAddr / u8` case builds a `Prefix`, which the declarative rules do
         not have), f-strings (and with them `resolve_obligations`: for a body of
         the fragment the obligations stay empty — `inferFn_store`);
